@@ -44,6 +44,9 @@ pub enum MOp {
     MpSuspend(Vec<String>),
     BarSuspend(u16, Vec<String>),
     SetAlignment(bool),
+    SetTabWidth(u16, u8),
+    /// pb.set_draw_target(hidden()): the bar leaves the MultiProgress through `disconnect`
+    Detach(u16),
     /// advance the virtual clock by this many ms (used by the rate-limited configurations)
     Wait(u32),
 }
@@ -264,6 +267,8 @@ pub struct Outcome {
     pub phase_frames: Vec<(Vec<String>, usize)>,
     pub skipped: bool,
     pub note: &'static str,
+    /// result of an io::Result-returning call (mp.println, mp.clear)
+    pub io_result: Option<Result<(), String>>,
 }
 
 impl Drop for Interp {
@@ -335,7 +340,7 @@ impl Interp {
     pub fn step(&mut self, op: &MOp) -> Result<Outcome, Fail> {
         let mp = self.mp.clone().expect("mp alive");
         let n = self.handles.len();
-        let mut out = Outcome { frames: vec![], phase_frames: vec![], skipped: false, note: "" };
+        let mut out = Outcome { frames: vec![], phase_frames: vec![], skipped: false, note: "", io_result: None };
         let sel = |s: u16| pick(s, n);
         macro_rules! need_handle {
             ($s:expr) => {{
@@ -519,7 +524,7 @@ impl Interp {
                 }
             }
             MOp::MpPrintln(t) => {
-                mp.println(t).map_err(|e| Fail::new("io", format!("println returned {e}")))?;
+                out.io_result = Some(mp.println(t).map_err(|e| e.to_string()));
                 self.model.log.extend(println_lines(t));
                 text_paint = true;
             }
@@ -537,7 +542,7 @@ impl Interp {
                 }
             }
             MOp::MpClear => {
-                mp.clear().map_err(|e| Fail::new("io", format!("clear returned {e}")))?;
+                out.io_result = Some(mp.clear().map_err(|e| e.to_string()));
                 self.model.blocks_optional();
                 out.phase_frames.push((vec![], self.model.log.len()));
             }
@@ -566,6 +571,32 @@ impl Interp {
                     self.model.blocks_optional();
                     out.phase_frames.push((vec![], log_before.len()));
                     self.model.log.extend(lines.iter().cloned());
+                }
+            }
+            MOp::SetTabWidth(s, w) => {
+                let i = need_handle!(*s);
+                self.handles[i].pb.set_tab_width(*w as usize);
+                let tag = self.handles[i].tag;
+                paint = self.handles[i].member;
+                self.redraw(tag);
+            }
+            MOp::Detach(s) => {
+                let i = need_handle!(*s);
+                self.handles[i].pb.set_draw_target(ProgressDrawTarget::hidden());
+                if self.handles[i].member {
+                    // the slot stays listed (empty) - the bar itself is hidden from now on
+                    self.handles[i].member = false;
+                    let tag = self.handles[i].tag;
+                    if let Some(p) = self.model.entries.iter().position(|e| e.tag == tag) {
+                        let mut ghost = self.model.entries[p].clone();
+                        self.model.entries[p].drawn = Some(vec![]);
+                        self.model.entries[p].tag = usize::MAX - tag;
+                        ghost.drawn = None;
+                        self.model.detached.push(ghost);
+                    }
+                    out.note = "detach";
+                } else {
+                    paint = false;
                 }
             }
             MOp::SetAlignment(b) => {
@@ -654,6 +685,7 @@ pub fn mop_strategy(cols: usize, with_wait: bool) -> BoxedStrategy<MOp> {
         1 => proptest::collection::vec("[a-z]{1,5}", 0..3).prop_map(MOp::MpSuspend),
         1 => (s(), proptest::collection::vec("[a-z]{1,5}", 0..3)).prop_map(|(i, l)| MOp::BarSuspend(i, l)),
         1 => any::<bool>().prop_map(MOp::SetAlignment),
+        1 => (s(), 0u8..12).prop_map(|(i, w)| MOp::SetTabWidth(i, w)),
     ];
     if with_wait {
         prop_oneof![12 => base, 1 => prop_oneof![Just(0u32), 1u32..50, 50u32..3000].prop_map(MOp::Wait)].boxed()
